@@ -80,7 +80,7 @@ where
     (e, desc_ok)
 }
 
-fn gen_ctx<Ctx: CtxInfo>(fix: &Fix, tier: &str, seed: u64, maxn: usize, cap: usize, src: &mut String, cases: &mut Vec<Case>, names: &mut Vec<String>, samples: &mut Vec<String>) {
+fn gen_ctx<Ctx: CtxInfo>(fix: &Fix, tier: &str, seed: u64, maxn: usize, cap: usize, src: &mut String, cases: &mut Vec<Case>, names: &mut Vec<String>, samples: &mut Vec<String>, shapes_meta: &mut Vec<(usize, usize)>) {
     let mut ents = enumerate::<Ctx>(fix, Ctx::ID, maxn);
     ents.sort_by_key(|e| (e.nodes.min(3), hash_str(&e.class, if tier == "thorough" { seed } else { 0 })));
     ents.truncate(cap);
@@ -150,6 +150,7 @@ fn gen_ctx<Ctx: CtxInfo>(fix: &Fix, tier: &str, seed: u64, maxn: usize, cap: usi
             samples.push(format!("{{\"term\": \"{}\", \"ctx\": {}, \"type\": \"{}\", \"accepted_by\": [{}]}}", json_escape(&g.name), g.ctx, g.ty_str, entries.iter().filter(|x| x.1).map(|x| format!("\"{}\"", x.0)).collect::<Vec<_>>().join(",")));
         }
         names.push(g.name.clone());
+        shapes_meta.push((g.rows.len(), g.ops.len().max(g.wits.len()).max(g.policy.len())));
         let bare_nonstandard = !match &e.t {
             T::C(x) => matches!(**x, T::PkK | T::PkH),
             T::Multi(_, n) | T::SMulti(_, n) => *n <= 3,
@@ -168,11 +169,12 @@ pub fn generate(fix: &Fix, tier: &str, seed: u64, out_dir: &str) {
     let mut cases = vec![];
     let mut names = vec![];
     let mut samples = vec![];
+    let mut shapes_meta: Vec<(usize, usize)> = vec![];
     let th = tier == "thorough";
-    gen_ctx::<Segwitv0>(fix, tier, seed, if th { 4 } else { 3 }, if th { 700 } else { 220 }, &mut src, &mut cases, &mut names, &mut samples);
-    gen_ctx::<Tap>(fix, tier, seed, if th { 4 } else { 3 }, if th { 500 } else { 140 }, &mut src, &mut cases, &mut names, &mut samples);
-    gen_ctx::<Legacy>(fix, tier, seed, 3, if th { 200 } else { 80 }, &mut src, &mut cases, &mut names, &mut samples);
-    gen_ctx::<BareCtx>(fix, tier, seed, 3, if th { 120 } else { 50 }, &mut src, &mut cases, &mut names, &mut samples);
+    gen_ctx::<Segwitv0>(fix, tier, seed, if th { 4 } else { 3 }, if th { 700 } else { 220 }, &mut src, &mut cases, &mut names, &mut samples, &mut shapes_meta);
+    gen_ctx::<Tap>(fix, tier, seed, if th { 4 } else { 3 }, if th { 500 } else { 140 }, &mut src, &mut cases, &mut names, &mut samples, &mut shapes_meta);
+    gen_ctx::<Legacy>(fix, tier, seed, 3, if th { 200 } else { 80 }, &mut src, &mut cases, &mut names, &mut samples, &mut shapes_meta);
+    gen_ctx::<BareCtx>(fix, tier, seed, 3, if th { 120 } else { 50 }, &mut src, &mut cases, &mut names, &mut samples, &mut shapes_meta);
     for c in &cases {
         let _ = write!(src, "pub static AC{}: Acc = Acc{{shape:&SH{},entries:&[", c.shape, c.shape);
         for (n, a) in &c.entries {
@@ -186,7 +188,9 @@ pub fn generate(fix: &Fix, tier: &str, seed: u64, out_dir: &str) {
     }
     for (bi, chunk) in cases.chunks(6).enumerate() {
         let mut unwind = 24usize;
-        let _ = chunk;
+        for c in chunk {
+            unwind = unwind.max(shapes_meta[c.shape].0).max(shapes_meta[c.shape].1).max(c.entries.len()).max(c.limits.len());
+        }
         unwind += 2;
         let _ = writeln!(src, "// @h c12_acc_{bi:03} kind=V programs={} timeout=1500 mem=4 covers=any", chunk.len());
         let _ = writeln!(src, "#[cfg_attr(kani, kani::proof)]\n#[cfg_attr(kani, kani::unwind({unwind}))]\npub fn c12_acc_{bi:03}() {{");
